@@ -466,6 +466,66 @@ CANARIES = [
 ]
 
 
+class TileGateGeometry(Harness):
+    """the rectangle TileLayer.render tests against the limit and hands to the clip mask is the rectangle the tile image covers
+    (the tile's full ground rectangle, also where it sticks out of the grid extent) -- for a symbolic tile of a grid whose extent
+    is not a multiple of the tile span.  With another rectangle the mask, which is stretched over the whole image, puts the
+    boundary of the limit on the wrong pixels."""
+    modules = ['mapproxy.grid', 'mapproxy.service.tile']
+    functions = ['TileLayer.render', 'TileLayer._internal_tile_coord']
+    merge_bool = False
+
+    @classmethod
+    def build(cls, L, cfg):
+        fx = tilesvc.make_layer(L, dict(grid=cfg['grid']))
+        st = fx['st']
+        fx['calls'] = []
+        fx['layer'].tile_manager = _TM(fx['G'])
+
+        class TR(object):
+            def __init__(self, tile, format=None, timestamp=None, image_opts=None):
+                self.timestamp, self.size, self.cacheable = 0, 0, True
+
+            def as_buffer(self):
+                return b'TILE'
+        st.__dict__['TileResponse'] = TR
+        st.__dict__['mask_image_source_from_coverage'] = lambda src, bbox, srs, coverage, image_opts=None: fx['calls'].append(tuple(bbox)) or _Src()
+        st.__dict__['ImageOptions'] = lambda **kw: None
+        return fx
+
+    @classmethod
+    def inputs(cls, ctx, cfg):
+        gs = ctx['G'].grid_sizes[cfg['level']]
+        x, y = int_var('x'), int_var('y')
+        assume(AND(x >= 0, y >= 0, x < gs[0], y < gs[1]))
+        return dict(x=x, y=y, inside=bool_var('limit_contains_tile'), touches=bool_var('limit_intersects_tile'))
+
+    @classmethod
+    def prop(cls, ctx, cfg, x, y, inside, touches):
+        layer, G = ctx['layer'], ctx['G']
+        del ctx['calls'][:]
+        asked = []
+
+        class C(Cov):
+            def contains(self, bbox, srs):
+                asked.append(tuple(bbox))
+                return B(self._c)
+
+            def intersects(self, bbox, srs):
+                asked.append(tuple(bbox))
+                return B(OR(self._c, self._i))
+        level = cfg['level']
+        origin = 'sw' if G.origin in ('ll', 'sw') else 'nw'
+        layer.render(tilesvc.Req((x, y, level), origin=origin), coverage=C('limit', inside, touches))
+        tb = G.tile_bbox((x, y, level))
+        eps = G.resolution(level) * 1e-6
+        ok = len(asked) >= 1
+        for b in asked + list(ctx['calls']):
+            for i in range(4):
+                ok = AND(ok, b[i] - tb[i] <= eps, tb[i] - b[i] <= eps)
+        return ok
+
+
 class LimitInOtherSRS(Harness):
     """a limited_to geometry given in another SRS than the request: GeomCoverage.contains / intersects bring the request's
     point or rectangle into the SRS of the limit (request SRS -> limit SRS, not the other way round) before asking the geometry.
@@ -565,6 +625,9 @@ def obligations(tier, seed):
         for aff in ([2.0, 3.0, 100.0, -50.0], [0.5, 0.25, -7.0, 11.0]):
             specs.append(spec(MOD, 'LimitInOtherSRS', 'limit-in-other-srs/%s/affine%s' % (q, aff[:2]), cfg=dict(query=q, affine=aff), cost=3))
         specs.append(spec(MOD, 'LimitInOtherSRS', 'limit-in-other-srs/%s/same-srs' % q, cfg=dict(query=q, affine=[2.0, 3.0, 100.0, -50.0], same_srs=True), cost=3))
+    for gname, level in (('utm_ll', 1), ('frac_ul', 1)) + ((('utm_ul', 2), ('frac_ll', 2)) if tier == 'thorough' else ()):
+        specs.append(spec(MOD, 'TileGateGeometry', 'tile-gate-uses-the-rectangle-of-the-image/%s/L%d' % (gname, level), cfg=dict(grid=gname, level=level), cost=5))
+    specs.append(spec(MOD, 'TileGateGeometry', 'twin/TileGateGeometry', kind='witness', cfg=dict(grid='utm_ll', level=1)))
     specs.append(spec(MOD, 'LimitInOtherSRS', 'twin/LimitInOtherSRS', kind='witness', cfg=dict(query='point', affine=[2.0, 3.0, 100.0, -50.0])))
     specs.append(spec(MOD, 'LimitInOtherSRS', 'canary/request rectangle not brought into the SRS of the limit', kind='canary', cfg=dict(query='rectangle', affine=[2.0, 3.0, 100.0, -50.0]), cost=3,
                       patches={'mapproxy.util.coverage': [("            if srs != self.srs:\n                geom = srs.transform_bbox_to(self.srs, geom)\n            geom = bbox_polygon(geom)",
